@@ -253,6 +253,8 @@ def fam_style():
                 AS(["color"], "pat", pat="^sp", enum="e:green")],
         base + [AS(["nosuchprop", "color"], "els", els=["span"])],
         base + [AS(["color"], "els", els=["span"], enum="e:Red|BLUE"), AS(["text-align"], "glob", enum="e:Center")],   # enumerations compare case-insensitively
+        # elements allowed by name only, no attribute rule anywhere: the style attribute lives on the style rules alone
+        [call("NewPolicy"), call("AllowElements", names=["span", "p"]), AS(["color"], "els", els=["span"]), AS(["width"], "pat", pat="^p$")],
         base,
         # default handlers for several properties on an element pattern
         base + [AS(["color", "width", "text-align"], "pat", pat="^custom-")],
